@@ -440,3 +440,11 @@ func Main(t *testing.T, prop string, subs ...Runner) {
 		s.run(t, ev)
 	}
 }
+
+// Classes returns the labels recorded so far (exploration helpers).
+func (c *Ctx) Classes() []string {
+	if c == nil {
+		return nil
+	}
+	return c.classes
+}
